@@ -3,7 +3,7 @@ import Librfn.Gen.Layout
 # Executable model of `librfn/console.c` (hand-written; tied to the C by the correspondence run of C15)
 
 Mirrors the **current** code (after the fixes 97e2cea: backspace writes a NUL; 86eb39a: the cursor of
-`console_eval` lives in the field `evali`).  One console and the file-static command table.
+`console_eval` lives in the field `evali`; 15aaa9d: no opening quote inside a quoted argument).  One console and the file-static command table.
 
 * bytes are `Nat`s `< 256`; the scratch union is a `List Byte` of `Layout.scratchSize` bytes, pointers
   into it (`bufp`, `argv[i]`) are offsets from `scratch.buf`; `none` is the NULL pointer;
@@ -134,6 +134,27 @@ structure Tok where
   wr : List Nat               -- ghost: offsets written
   deriving Repr
 
+/-- one iteration of the loop **as it was before 15aaa9d** (defect D11: an opening quote was
+    recognised while a quote was already open); kept only for the regression witness in C15 -/
+def tokStepOld (t : Tok) (i : Nat) : Tok × Bool :=
+  if isspace (t.mem.getD i 0) = true ∧ t.quote = 0 then
+    ({ t with mem := t.mem.set i 0, wr := i :: t.wr }, false)
+  else if t.mem.getD i 0 = t.quote then
+    ({ t with quote := 0, mem := t.mem.set i 0, wr := i :: t.wr }, false)
+  else if t.mem.getD (i - 1) 0 = 0 then
+    if t.mem.getD i 0 = 39 ∨ t.mem.getD i 0 = 34 then
+      ({ t with quote := t.mem.getD i 0, mem := t.mem.set i 0, wr := i :: t.wr }, false)
+    else
+      ({ t with argv := t.argv.set t.argc (some i), argc := t.argc + 1 }, decide (t.argc + 1 ≥ argvLen))
+  else (t, false)
+
+def tokLoopOld : Nat → Nat → Tok → Tok
+  | 0, _, t => t
+  | n + 1, i, t => if (tokStepOld t i).2 = true then (tokStepOld t i).1 else tokLoopOld n (i + 1) (tokStepOld t i).1
+
+def tokenizeMemOld (mem : List Byte) (argv : List (Option Nat)) (len : Nat) : Tok :=
+  tokLoopOld (len - 1) 1 { mem := mem, quote := 0, argc := 1, argv := argv.set 0 (some 0), wr := [] }
+
 /-- one iteration of the `for (i = 1; i < len; i++)` loop; the flag is `break` -/
 def tokStep (t : Tok) (i : Nat) : Tok × Bool :=
   if isspace (t.mem.getD i 0) = true ∧ t.quote = 0 then
@@ -141,7 +162,7 @@ def tokStep (t : Tok) (i : Nat) : Tok × Bool :=
   else if t.mem.getD i 0 = t.quote then
     ({ t with quote := 0, mem := t.mem.set i 0, wr := i :: t.wr }, false)
   else if t.mem.getD (i - 1) 0 = 0 then
-    if t.mem.getD i 0 = 39 ∨ t.mem.getD i 0 = 34 then
+    if t.quote = 0 ∧ (t.mem.getD i 0 = 39 ∨ t.mem.getD i 0 = 34) then
       ({ t with quote := t.mem.getD i 0, mem := t.mem.set i 0, wr := i :: t.wr }, false)
     else
       ({ t with argv := t.argv.set t.argc (some i), argc := t.argc + 1 }, decide (t.argc + 1 ≥ argvLen))
